@@ -35,12 +35,16 @@ pub const MENU: &[(&str, bool)] = &[
     ("(vector-set! '#(1) 0 1)", true),
     ("(set! nope 1)", true),
     ("(display (cadr '(1)))", true),
+    ("(if)", true),
 ];
 
 const HEADER: &str = "(import (scheme base) (scheme write))";
 
-#[derive(Clone)]
+/// what precedes each form (after the previous one): layout must not matter
+pub const GAPS: &[&str] = &["\n", "\n\n\n", "\n    ", " ; trailing (comment\n\t", "\n;; full line comment )\n"];
+
 pub struct Case {
+    pub gap: usize,
     pub forms: Vec<usize>,
     pub crlf: bool,
     pub final_newline: bool,
@@ -49,23 +53,30 @@ pub struct Case {
 
 pub struct Rendered {
     pub text: String,
-    /// 1-based (first line, last line) of each menu form in the file
-    pub extents: Vec<(u32, u32)>,
+    /// 1-based ((line, col) of the first character, (line, col) just past the last character) of each form
+    pub extents: Vec<((u32, u32), (u32, u32))>,
 }
 
 pub fn render(c: &Case) -> Rendered {
     let nl = if c.crlf { "\r\n" } else { "\n" };
     let mut text = String::from(HEADER);
-    let mut line = 1u32;
     let mut extents = vec![];
-    for f in &c.forms {
-        text.push_str(nl);
-        line += 1;
+    // positions are computed on the LF-normalised text (the file reader strips CR)
+    let mut norm = String::from(HEADER);
+    let pos_of = |t: &str| {
+        let line = t.matches('\n').count() as u32 + 1;
+        let col = t.rsplit('\n').next().unwrap_or("").chars().count() as u32 + 1;
+        (line, col)
+    };
+    for (k, f) in c.forms.iter().enumerate() {
+        let gap = GAPS[(c.gap + k) % GAPS.len()];
+        text.push_str(&gap.replace('\n', nl));
+        norm.push_str(gap);
         let src = MENU[*f].0;
-        let n = src.matches('\n').count() as u32;
-        extents.push((line, line + n));
+        let start = pos_of(&norm);
         text.push_str(&src.replace('\n', nl));
-        line += n;
+        norm.push_str(src);
+        extents.push((start, pos_of(&norm)));
     }
     if c.final_newline {
         text.push_str(nl);
@@ -174,10 +185,12 @@ pub fn judge(c: &Case, worker: usize) -> Result<u64, (String, String)> {
             }
             match parse_diag(&got.stderr, &arg) {
                 Err(w) => problems.push(format!("diagnostic {:?}: {}", got.stderr, w)),
-                Ok((line, _col)) => {
+                Ok((line, col)) => {
+                    // inside the text of the failing form (the implementation reports the position
+                    // just past a token, so the end bound is inclusive of one more column)
                     let (a, b) = r.extents[k];
-                    if line < a || line > b {
-                        problems.push(format!("diagnostic line {} outside the failing form's lines {}..{} ({:?})", line, a, b, got.stderr));
+                    if (line, col) < a || (line, col) > (b.0, b.1 + 1) {
+                        problems.push(format!("diagnostic position {}:{} outside the failing form {:?}..{:?} ({:?})", line, col, a, b, got.stderr));
                     }
                 }
             }
@@ -235,7 +248,7 @@ pub fn cases(max_forms: usize) -> Vec<Case> {
                 if len == max_forms && len >= 3 && variant != i % 8 && variant != (i + 3) % 8 {
                     continue;
                 }
-                out.push(Case { forms: forms.clone(), crlf: variant & 1 != 0, final_newline: variant & 2 != 0, elsewhere: variant & 4 != 0 });
+                out.push(Case { gap: (i + variant) % GAPS.len(), forms: forms.clone(), crlf: variant & 1 != 0, final_newline: variant & 2 != 0, elsewhere: variant & 4 != 0 });
             }
         }
     }
@@ -303,7 +316,7 @@ pub fn run(ctx: &Ctx) -> i32 {
                         acc.sample(i, json!({"program": describe(c)}));
                     }
                 }
-                Err((e, o)) => acc.mismatch(Mismatch { idx: i, case: describe(c), expected: format!(": {}", e), observed: o, payload: json!({"forms": c.forms, "crlf": c.crlf, "final_newline": c.final_newline, "elsewhere": c.elsewhere}) }, None),
+                Err((e, o)) => acc.mismatch(Mismatch { idx: i, case: describe(c), expected: format!(": {}", e), observed: o, payload: json!({"gap": c.gap, "forms": c.forms, "crlf": c.crlf, "final_newline": c.final_newline, "elsewhere": c.elsewhere}) }, None),
             }
         },
     );
@@ -319,7 +332,7 @@ pub fn run(ctx: &Ctx) -> i32 {
             tier: ctx.tier_name(),
             seed: ctx.seed,
             exhaustive: true,
-            rule: format!("every program file = import line + every sequence of <= {} forms from a menu of {} (displays of an integer / symbol / improper list / string, newline, definition, silent expression, a procedure that displays called twice, a multi-line form, 9 failing forms) x LF/CRLF x final newline or none x working directory = program directory or elsewhere (the longest programs get a rotating pair of the 8 variants), run through the built binary; plus missing file, directory as file, non-UTF-8 file; distinct = distinct (stdout, status) observations", max_forms, MENU.len()),
+            rule: format!("every program file = import line + every sequence of <= {} forms from a menu of {} (displays of an integer / symbol / improper list / string, newline, definition, silent expression, a procedure that displays called twice, a multi-line form, 9 failing forms) x LF/CRLF x final newline or none x working directory = program directory or elsewhere x 5 rotating inter-form layouts (newline, blank lines, indentation, trailing comment + tab, full-line comment) (the longest programs get a rotating pair of the 8 variants), run through the built binary; plus missing file, directory as file, non-UTF-8 file; distinct = distinct (stdout, status) observations", max_forms, MENU.len()),
             bounds: json!({"programs": total, "max_forms": max_forms}),
             assumptions: vec!["refsem's printer for integers, symbols, strings and lists (where the output format is not in question)".into()],
             wall_s: ctx.elapsed(),
@@ -335,6 +348,7 @@ pub fn replay(p: &serde_json::Value) -> bool {
         return acc.n_violations > 0;
     }
     let c = Case {
+        gap: p["gap"].as_u64().unwrap_or(0) as usize,
         forms: p["forms"].as_array().unwrap().iter().map(|x| x.as_u64().unwrap() as usize).collect(),
         crlf: p["crlf"].as_bool().unwrap_or(false),
         final_newline: p["final_newline"].as_bool().unwrap_or(true),
